@@ -32,9 +32,9 @@ Theorem C44_mapping_parts : forall e u o, parse_url e u = Ok o ->
   (tls o <> None <-> is_tls_scheme (scheme u) = true) /\
   unix_dial o = is_unix_scheme (scheme u) /\
   init_address o =
-    (if is_unix_scheme (scheme u) then [trim_space e (path u)] else [snd (parse_addr e (host u) (host u))])
-    ++ map (fun a => snd (parse_addr e (host u) a)) (q_all (query u) (b "addr")) /\
-  (forall t, tls o = Some t -> server_name t = fst (parse_addr e (host u) (host u))) /\
+    (if is_unix_scheme (scheme u) then [trim_space e (path u)] else [snd (parse_addr e (hostname u) (host u))])
+    ++ map (fun a => snd (parse_addr e (hostname u) a)) (q_all (query u) (b "addr")) /\
+  (forall t, tls o = Some t -> server_name t = fst (parse_addr e (hostname u) (host u))) /\
   (q_has (query u) (b "db") = true -> parse_int10 (q_get (query u) (b "db")) = Some (select_db o)) /\
   (q_has (query u) (b "db") = false -> is_unix_scheme (scheme u) = false ->
      forall x d, split_byte 47 (path u) = [x; d] -> parse_int10 d = Some (select_db o)) /\
@@ -69,9 +69,9 @@ Theorem C44_noninterference : forall e u u' o o',
   (q_all (query u) (b "client_name") = q_all (query u') (b "client_name") -> client_name o = client_name o') /\
   (q_all (query u) (b "master_set") = q_all (query u') (b "master_set") -> master_set o = master_set o') /\
   (user u = user u' -> username o = username o' /\ password o = password o') /\
-  (scheme u = scheme u' -> host u = host u' ->
+  (scheme u = scheme u' -> host u = host u' -> hostname u = hostname u' ->
    q_all (query u) (b "skip_verify") = q_all (query u') (b "skip_verify") -> tls o = tls o') /\
-  (scheme u = scheme u' -> host u = host u' -> path u = path u' ->
+  (scheme u = scheme u' -> host u = host u' -> hostname u = hostname u' -> path u = path u' ->
    q_all (query u) (b "addr") = q_all (query u') (b "addr") -> init_address o = init_address o') /\
   (scheme u = scheme u' -> path u = path u' ->
    q_all (query u) (b "db") = q_all (query u') (b "db") -> select_db o = select_db o').
@@ -83,7 +83,7 @@ Print Assumptions C44_noninterference.
     port is taken as it is; an entry without host takes the URL's host (localhost if none) and a missing port 6379 *)
 Theorem C44_addr_list : forall e u o, parse_url e u = Ok o ->
   forall i a, nth_error (q_all (query u) (b "addr")) i = Some a ->
-  nth_error (init_address o) (S i) = Some (snd (parse_addr e (host u) a)) /\
+  nth_error (init_address o) (S i) = Some (snd (parse_addr e (hostname u) a)) /\
   List.length (init_address o) = S (List.length (q_all (query u) (b "addr"))).
 Proof. exact addr_entries. Qed.
 Print Assumptions C44_addr_list.
@@ -99,31 +99,28 @@ Proof.
 Qed.
 Print Assumptions C44_addr_entry.
 
-(** Full statement of the documented rule ("an addr entry without a host takes the URL's host name, one without a port
-    takes 6379") is REFUTED by the code in two characterised classes (known findings, not repaired):
-    an entry without a port is rejected as a whole by net.SplitHostPort, so its host is replaced by the URL's host too;
-    and the default host is u.Host verbatim, including the URL's own port or brackets. *)
-Theorem C44_addr_rule_refuted :
-  let e := mkEnv (fun s => if bytes_eqb s (b "h1:7000") then (b "h1", b "7000") else if bytes_eqb s (b ":7001") then ([], b "7001") else ([], []))
-                 (fun _ => None) (fun s => s) in
-  (* redis://h1?addr=h3  gives h1:6379 twice *)
-  parse_url e (mkUrl (b "redis") None (b "h1") [] [(b "addr", b "h3")]) =
-    Ok (mkOpts [b "h1:6379"; b "h1:6379"] None false [] [] 0%Z 0%Z 0%Z false false false [] []) /\
-  (* redis://h1:7000?addr=:7001  gives [h1:7000]:7001 *)
-  parse_url e (mkUrl (b "redis") None (b "h1:7000") [] [(b "addr", b ":7001")]) =
-    Ok (mkOpts [b "h1:7000"; b "[h1:7000]:7001"] None false [] [] 0%Z 0%Z 0%Z false false false [] []).
-Proof. vm_compute. split; reflexivity. Qed.
-Print Assumptions C44_addr_rule_refuted.
+(** the documented rule, in full: an addr entry [host:port] is taken as it is, an entry [:port] takes the URL's host
+    NAME (u.Hostname(): no port, no brackets; localhost if the URL has none); IPv6 hosts are bracketed when joined.
+    (Entries without a port are not documented — addr=<host>:<port> — and outside this statement.) *)
+Theorem C44_addr_rule : forall e u o, parse_url e u = Ok o ->
+  forall i a h p, nth_error (q_all (query u) (b "addr")) i = Some a -> split_host_port e a = (h, p) -> p <> [] ->
+  nth_error (init_address o) (S i) =
+  Some (join_host_port (match h with [] => match hostname u with [] => b "localhost" | n => n end | _ => h end) p).
+Proof.
+  intros e u o H i a h p Hi Hs Hp. destruct (addr_entries e u o H i a Hi) as [-> _]. now rewrite (addr_rule e u a h p Hs Hp).
+Qed.
+Print Assumptions C44_addr_rule.
 
-Theorem C44_addr_rule_characterised : forall e uhost a,
-  (split_host_port e a = ([], []) ->
-     snd (parse_addr e uhost a) = join_host_port (match uhost with [] => b "localhost" | _ => uhost end) (b "6379")) /\
-  (forall p, split_host_port e a = ([], p) -> p <> [] -> contains_byte 58 uhost = true ->
-     snd (parse_addr e uhost a) = (91 :: uhost) ++ (93 :: 58 :: p)).
-Proof. intros e uhost a. split; [apply addr_portless_loses_host|apply addr_default_host_verbatim]. Qed.
-Print Assumptions C44_addr_rule_characterised.
-
-(** outside these classes (entries with a port; a URL host that is a plain name) the rule holds: [C44_addr_entry] *)
+(** the original code took u.Host verbatim as the default host: redis://h1:7000?addr=:7001 gave [h1:7000]:7001 and
+    redis://[::1] gave [[::1]]:6379 *)
+Theorem C44_addr_rule_before_fix_refuted :
+  let e := mkEnv (fun s => if bytes_eqb s (b ":7001") then ([], b "7001") else ([], [])) (fun _ => None) (fun s => s) in
+  snd (parse_addr e (b "h1:7000") (b ":7001")) = b "[h1:7000]:7001" /\
+  snd (parse_addr e (b "h1") (b ":7001")) = b "h1:7001" /\
+  snd (parse_addr e (b "[::1]") (b "[::1]")) = b "[[::1]]:6379" /\
+  snd (parse_addr e (b "::1") (b "[::1]")) = b "[::1]:6379".
+Proof. exact addr_before_fix_malformed. Qed.
+Print Assumptions C44_addr_rule_before_fix_refuted.
 
 (** adding or changing a pair with another key does not change the values of a key *)
 Theorem C44_other_keys_invisible : forall q k k' v, bytes_eqb k' k = false -> q_all ((k', v) :: q) k = q_all q k.
@@ -161,13 +158,13 @@ Definition ex_env : env :=
         (fun s => s).
 
 Example C44_nonvacuous_accept :
-  parse_url ex_env (mkUrl (b "rediss") (Some (b "u", Some (b "p"))) (b "h:1") (b "/3")
+  parse_url ex_env (mkUrl (b "rediss") (Some (b "u", Some (b "p"))) (b "h:1") (b "h") (b "/3")
      [(b "addr", b "a:2"); (b "dial_timeout", b "5s"); (b "write_timeout", b "1s"); (b "skip_verify", []); (b "protocol", b "2")]) =
   Ok (mkOpts [b "h:1"; b "a:2"] (Some (mkTls (b "h") true)) false (b "u") (b "p") 3%Z 5000000000%Z 1000000000%Z true false false [] []).
 Proof. vm_compute. reflexivity. Qed.
 
 Example C44_nonvacuous_reject :
-  parse_url ex_env (mkUrl (b "redis") None (b "h:1") [] [(b "write_timeout", b "x")]) = Err EWrite /\
-  parse_url ex_env (mkUrl (b "http") None (b "h:1") [] []) = Err EScheme /\
-  parse_url ex_env (mkUrl (b "redis") None (b "h:1") (b "/1/2") []) = Err EPath.
+  parse_url ex_env (mkUrl (b "redis") None (b "h:1") (b "h") [] [(b "write_timeout", b "x")]) = Err EWrite /\
+  parse_url ex_env (mkUrl (b "http") None (b "h:1") (b "h") [] []) = Err EScheme /\
+  parse_url ex_env (mkUrl (b "redis") None (b "h:1") (b "h") (b "/1/2") []) = Err EPath.
 Proof. vm_compute. repeat split; reflexivity. Qed.
